@@ -40,8 +40,8 @@ pub enum ListType { Mixed(Vec<TL>), Open(Box<TL>) }
 pub fn vec_first(v: &Vec<TL>) -> (r: Option<&TL>) ensures v@.len() == 0 ==> r is None, v@.len() > 0 ==> r == Some(&v@[0]) { if v.len() == 0 { None } else { Some(&v[0]) } }
 
 // ---- what the property needs of list compatibility ----
-// fixed-shape vs fixed-shape: slot by slot over the common prefix (a missing slot is an index-out-of-range failure, which C02 allows)
-pub open spec fn mixed_mixed(t1: Seq<TL>, t2: Seq<TL>, f: Flags) -> bool { forall|j: int| 0 <= j < t1.len() && j < t2.len() ==> compat(t1[j], t2[j], f) }
+// fixed-shape vs fixed-shape: the same number of slots, and slot by slot (C03: `x: [int, str, float] = [1, "a"]` is a wrong-typed initializer)
+pub open spec fn mixed_mixed(t1: Seq<TL>, t2: Seq<TL>, f: Flags) -> bool { t1.len() == t2.len() && forall|j: int| 0 <= j < t1.len() && j < t2.len() ==> compat(t1[j], t2[j], f) }
 // fixed-shape literal where `[T...]` is wanted (or the reverse): EVERY slot must be compatible with T
 pub open spec fn mixed_open(t1: Seq<TL>, t2: TL, f: Flags) -> bool { forall|j: int| 0 <= j < t1.len() ==> compat(t2, t1[j], f) }
 // a fixed-shape list may be used as `[T...]` only if every adjacent pair of slots is compatible (so all slots are, by transitivity, T = slot 0)
@@ -199,7 +199,7 @@ fn main() {{}}
 """
     obls = [
         Obl("C02.compat.function.eq", ["C02", "C03"], fn="FunctionType::eq", desc="PartialEq for FunctionType: same arity, return types agree for signature checking, every parameter pair compatible under signature_check flags"),
-        Obl("C02.compat.list.mixed-mixed", ["C02", "C03"], fn="eq_complex_arm_mixed_mixed", desc="eq_complex, [A, B] vs [C, D]: compatible exactly when every slot of the common prefix is"),
+        Obl("C02.compat.list.mixed-mixed", ["C02", "C03"], fn="eq_complex_arm_mixed_mixed", desc="eq_complex, [A, B] vs [C, D]: compatible exactly when both have the same number of slots and every slot is"),
         Obl("C02.compat.list.open-open", ["C02", "C03"], fn="eq_complex_arm_open_open", desc="eq_complex, [T...] vs [U...]: compatible exactly when T and U are"),
         Obl("C02.compat.list.mixed-open", ["C02", "C03"], fn="eq_complex_arm_mixed_open", desc="eq_complex, fixed-shape list vs [T...]: compatible exactly when EVERY slot is compatible with T"),
         Obl("C02.compat.listtype.eq", ["C02", "C03"], fn="ListType::eq", desc="PartialEq for ListType (the `lhs == rhs` shortcut in front of eq_complex): same three shapes, classless flags"),
